@@ -49,9 +49,10 @@ type run struct {
 	models       map[dragonboat.ShardKey]*shardModel
 	lastL        map[string]uint64
 	seenL        map[string]map[uint64]bool
-	fwd          []*fwdOp          // C11 in situ: writes sent to follower nodes' own API
-	onceChecked  map[uint64]uint64 // follower shard -> log index the once-in-order oracle has read up to
-	onceLast     map[uint64]uint64 // follower shard -> leader index of the last replicated proposal seen
+	trace        func(f string, a ...any) // VERIF_LOG=2: in-memory trace line
+	fwd          []*fwdOp                 // C11 in situ: writes sent to follower nodes' own API
+	onceChecked  map[uint64]uint64        // follower shard -> log index the once-in-order oracle has read up to
+	onceLast     map[uint64]uint64        // follower shard -> leader index of the last replicated proposal seen
 	hist         []*histOp
 	seq          int
 	faulted      bool
